@@ -1,5 +1,6 @@
 SPECIFICATION FairSpec
-CONSTANTS Cap = 3  Payload = 4  Variant = "communicate"  Drain = TRUE  CloseAll = TRUE  Timeout = FALSE  Escalate = TRUE  DtorSig = "KILL"  ProgName = "quick"
+CONSTANTS Cap = 3  Payload = 4  Variant = "communicate"  Drain = TRUE  CloseAll = TRUE  Timeout = FALSE  Escalate = TRUE  DtorSig = "KILL"  FirstName = "none"  ReapOnAssign = TRUE  ProgName = "quick"
 CONSTANT Prog <- MCProg
+CONSTANT FirstProg <- MCFirst
 INVARIANTS OutputComplete StatusExact Reaped AllFdsClosed StdinDelivered NoThrowUnlessEpipe
 PROPERTY Termination
